@@ -226,10 +226,7 @@ func (m *M) havoc(t types.Type, key string) Value {
 		m.st.Nondets = append(m.st.Nondets, NondetRec{Key: full, Kind: "stub", T: v})
 		return v
 	case isString(t):
-		v := smt.Var(name, smt.String)
-		m.constrainString(v, m.ex.Cfg.MaxStrLen)
-		m.st.Nondets = append(m.st.Nondets, NondetRec{Key: full, Kind: "stub", T: v})
-		return strT(v)
+		return m.newBoundedString(name, full, m.ex.Cfg.MaxStrLen, "stub")
 	case isFloat(t):
 		v := smt.Var(name, smt.Real)
 		m.st.Nondets = append(m.st.Nondets, NondetRec{Key: full, Kind: "stub", T: v})
@@ -269,8 +266,19 @@ func (m *M) makeError(msg StrV) Value {
 	return IfaceV{T: types.NewPointer(et), V: PtrV{Obj: id}}
 }
 
-func (m *M) constrainString(v *smt.Term, maxLen int) {
-	m.st.PC = append(m.st.PC, smt.IntLe(smt.StrLen(v), smt.IntC(int64(maxLen))), smt.StrInRe(v, smt.ReStar(smt.ReAllChar())))
+// newBoundedString: a symbolic string of at most maxLen arbitrary bytes.
+func (m *M) newBoundedString(name, fullKey string, maxLen int, kind string) StrV {
+	bs := make([]*smt.Term, maxLen)
+	for i := range bs {
+		bs[i] = smt.Var(fmt.Sprintf("%s_b%d", name, i), smt.BV(8))
+	}
+	ln := smt.Var(name+"_len", smt.BV(lw))
+	m.st.PC = append(m.st.PC, smt.BVUle(ln, lc(maxLen)))
+	m.st.Nondets = append(m.st.Nondets, NondetRec{Key: fullKey, Kind: kind, Bs: bs, LenT: ln})
+	if maxLen == 0 {
+		return strC("")
+	}
+	return StrV{IsB: true, Bytes: bs, Len: ln}
 }
 
 // ---------- builtins ----------
@@ -581,9 +589,9 @@ func primNondetString(m *M, fn *ssa.Function, a []Value) Value {
 	if len(a) > 1 {
 		idx = a[1]
 	}
-	v, _ := m.newNondet(m.keyOf(a[0], idx), "string", smt.String)
-	m.constrainString(v, m.ex.Cfg.MaxStrLen)
-	return strT(v)
+	key := m.keyOf(a[0], idx)
+	occ := m.st.bumpOcc(key)
+	return m.newBoundedString("nd_"+sanitize(key)+fmt.Sprintf("_%d", occ), fmt.Sprintf("%s#%d", key, occ), m.ex.Cfg.MaxStrLen, "string")
 }
 
 func primNondetStringN(m *M, fn *ssa.Function, a []Value) Value {
@@ -591,9 +599,9 @@ func primNondetStringN(m *M, fn *ssa.Function, a []Value) Value {
 	if len(a) > 2 {
 		idx = a[2]
 	}
-	v, _ := m.newNondet(m.keyOf(a[0], idx), "string", smt.String)
-	m.constrainString(v, constInt(a[1]))
-	return strT(v)
+	key := m.keyOf(a[0], idx)
+	occ := m.st.bumpOcc(key)
+	return m.newBoundedString("nd_"+sanitize(key)+fmt.Sprintf("_%d", occ), fmt.Sprintf("%s#%d", key, occ), constInt(a[1]), "string")
 }
 
 func primNondetByteString(m *M, fn *ssa.Function, a []Value) Value {
